@@ -2,7 +2,9 @@ package main
 
 import (
 	"fmt"
-	"go/constant"
+	"sort"
+	"strconv"
+	"strings"
 
 	"golang.org/x/tools/go/ssa"
 )
@@ -26,15 +28,16 @@ func ruleImageMethods(c *Ctx) {
 		content               string
 	}{
 		{"utils.(*base1DCode)", "call:utils.(*BitList).GetBit(c.BitList,x)", "call:utils.(*BitList).Len(c.BitList)", "1", "", 1, "c.content"},
-		{"qr.(*qrcode)", "call:qr.(*qrcode).Get(c,x,y)", "c.dimension", "c.dimension", "TypeQR", 2, "c.content"},
-		{"datamatrix.(*datamatrixCode)", "call:datamatrix.(*datamatrixCode).get(c,x,y)", "c.dmCodeSize.Columns", "c.dmCodeSize.Rows", "TypeDataMatrix", 2, "c.content"},
+		{"qr.(*qrcode)", "call:utils.(*BitList).GetBit(c.data," + MustRef("y + x*c.dimension").String() + ")", "c.dimension", "c.dimension", "TypeQR", 2, "c.content"},
+		{"datamatrix.(*datamatrixCode)", "call:utils.(*BitList).GetBit(c.BitList," + MustRef("y + x*c.dmCodeSize.Rows").String() + ")", "c.dmCodeSize.Columns", "c.dmCodeSize.Rows", "TypeDataMatrix", 2, "c.content"},
 		{"aztec.(*aztecCode)", "call:utils.(*BitList).GetBit(c.BitList," + MustRef("y + x*c.size").String() + ")", "c.size", "c.size", "TypeAztec", 2, "Conv:string(c.content)"},
 		{"pdf417.(*pdfBarcode)", "call:utils.(*BitList).GetBit(c.code," + MustRef("x + c.width*(y/2)").String() + ")", "c.width", pScale(pAtom("Div(call:utils.(*BitList).Len(c.code),c.width)"), 2).String(), "TypePDF", 2, "c.data"},
 	}
 	for _, t := range types_ {
 		mk := func(fn *ssa.Function) *Normer {
+			// helpers of the image types are inlined down to the bit-list primitives
 			n := NewNormer(c.P)
-			n.MaxInline = 0
+			n.NoInline["utils.(*BitList).GetBit"], n.NoInline["utils.(*BitList).Len"] = true, true
 			n.BindParams(fn, "c", "x", "y")
 			return n
 		}
@@ -162,25 +165,46 @@ func ruleImageMethods(c *Ctx) {
 		var got []string
 		n := NewNormer(c.P)
 		n.BindParams(fn, "content", "interleaved")
-		eachInstr(fn, func(b *ssa.BasicBlock, ins ssa.Instruction) {
-			call, ok := ins.(*ssa.Call)
+		byKind := map[string]*Cond{}
+		c.P.deepEach(fn, 2, func(s DeepSite) {
+			call, ok := s.Ins.(*ssa.Call)
 			if !ok || calleeOf(call) == nil || calleeOf(call).Pkg == nil || shortName(calleeOf(call).Pkg.Pkg.Path()) != "utils" {
 				return
 			}
 			if len(call.Common().Args) < 3 || !isStringType(call.Common().Args[0].Type()) {
 				return
 			}
-			if k, ok := call.Common().Args[0].(*ssa.Const); ok && k.Value != nil {
-				kind := constant.StringVal(k.Value)
-				got = append(got, kind)
-				if name == "twooffive.EncodeWithColor" {
-					rc := n.ReachCond(fn, nil, call.Block())
-					imp, _, _ := CondRelation(rc, &Cond{Kind: CBool, Name: "interleaved"})
-					impN, _, _ := CondRelation(rc, cNot(&Cond{Kind: CBool, Name: "interleaved"}))
-					c.Check(R4, name+"/kind-by-variant:"+kind, call.Pos(), (kind == "2 of 5 (interleaved)" && imp) || (kind == "2 of 5" && impN), "interleaved kind iff the interleaved flag", fmt.Sprintf("imp=%v impNot=%v", imp, impN))
+			// the kind argument: a constant, or a choice of constants (phi / value helper)
+			rc := n.ReachCondDeep(fn, nil, s)
+			saved := n.Ctx
+			n.Ctx = s.Path
+			cases := n.valueCases(s.Fn, nil, call.Common().Args[0], 0)
+			n.Ctx = saved
+			for _, cs := range cases {
+				v := cs.val.asAtom()
+				if !strings.HasPrefix(v, "const:\"") {
+					continue
 				}
+				kind, err := strconv.Unquote(strings.TrimPrefix(v, "const:"))
+				if err != nil {
+					continue
+				}
+				if byKind[kind] == nil {
+					byKind[kind] = cFalse
+					got = append(got, kind)
+				}
+				byKind[kind] = cOr(byKind[kind], cAnd(rc, cs.cond))
 			}
 		})
+		if name == "twooffive.EncodeWithColor" {
+			for _, kind := range got {
+				rc := byKind[kind]
+				imp, _, _ := CondRelation(rc, &Cond{Kind: CBool, Name: "interleaved"})
+				impN, _, _ := CondRelation(rc, cNot(&Cond{Kind: CBool, Name: "interleaved"}))
+				c.Check(R4, name+"/kind-by-variant:"+kind, fn.Pos(), (kind == "2 of 5 (interleaved)" && imp) || (kind == "2 of 5" && impN), "interleaved kind iff the interleaved flag", fmt.Sprintf("imp=%v impNot=%v", imp, impN))
+			}
+		}
+		sort.Strings(got)
 		okk := len(got) == len(want)
 		for _, w := range want {
 			f := false
